@@ -6,6 +6,7 @@
 # rewrote the lines) and seeds not reached within the budget are listed with the outcome recorded
 # when they were confirmed (meta.json).
 set -u
+export VERIF_NO_EVIDENCE=1
 TIER=${1:-quick}
 BUDGET=$(( ${2:-120} * 60 ))
 START=$(date +%s)
